@@ -268,6 +268,15 @@ Fixpoint vleaves (v : val) : list val :=
   | VZ z => [VZ z]
   | VL l => (fix go (l : list val) : list val := match l with [] => [] | x :: r => vleaves x ++ go r end) l
   end.
+(* flatten_by: a list flattened by k levels (0: as it is); an item that is not a list stays *)
+Fixpoint vflat (k : nat) (l : list val) : list val :=
+  match k with
+  | 0 => l
+  | S k' => flat_map (fun y => match y with VL l' => vflat k' l' | VZ _ => [y] end) l
+  end.
+(* what flatten_by with depth S k' yields for one pulled item *)
+Definition vflat_item (k' : nat) (x : val) : list val :=
+  match x with VL l => vflat k' l | VZ _ => [x] end.
 Definition zof (v : val) : Z := match v with VZ z => z | VL _ => 0%Z end.
 Definition vnat (i : nat) : val := VZ (Z.of_nat i).
 Definition vpair (a b : val) : val := VL [a; b].
@@ -286,7 +295,8 @@ Inductive stage : Type :=
 | SMapNth (k : nat) | SMapAlt
 | SZipFinL (l : list Z) | SZipFinR (l : list Z)
 | SAddFin (l : list Z) | SMulFin (l : list Z) | SSubFinL (l : list Z) | SSubFinR (l : list Z)
-| SInterleaveFinR (l : list Z) | SUnionFinL (l : list Z) | SFilterNotIn (l : list Z).
+| SInterleaveFinR (l : list Z) | SUnionFinL (l : list Z) | SFilterNotIn (l : list Z)
+| SFlattenBy (d : nat).
 
 Definition vneg (v : val) : val := VZ (- zof v).
 
@@ -332,6 +342,8 @@ Definition stage_machine (s : stage) : machine val val :=
   | SInterleaveFinR l => m_interleave_fin_r (map VZ l)
   | SUnionFinL l => m_union_fin_l val_eqb (map VZ l)
   | SFilterNotIn l => m_filter (fun v => negb (existsb (val_eqb v) (map VZ l)))
+  (* flatten_by: depth 0 hands the list back; otherwise every pulled item is flattened by d-1 *)
+  | SFlattenBy d => match d with 0 => m_append | S k' => m_multi (fun _ x => vflat_item k' x) end
   end.
 
 (* m, then each machine of rest in turn, every one pulling from its predecessor *)
